@@ -1316,8 +1316,10 @@ c_rule_convfl (OrcCompiler *p, void *user, OrcInstruction *insn)
 
   ORC_ASM_CODE(p, "    {\n");
   ORC_ASM_CODE(p,"       int tmp;\n");
-  ORC_ASM_CODE(p,"       tmp = (int)%s;\n", src);
-  ORC_ASM_CODE(p,"       if (tmp == 0x80000000 && !(%s&0x80000000)) tmp = 0x7fffffff;\n", src_i);
+  /* saturate |x| >= 2^31, infinities and NaN without an out-of-range (undefined)
+   * float to int conversion; same results as cvttss2si plus the positive fix-up */
+  ORC_ASM_CODE(p,"       if ((%s&0x7fffffff) >= 0x4f000000) tmp = (%s&0x80000000) ? (-1-0x7fffffff) : 0x7fffffff;\n", src_i, src_i);
+  ORC_ASM_CODE(p,"       else tmp = (int)%s;\n", src);
   ORC_ASM_CODE(p,"       %s = tmp;\n", dest);
   ORC_ASM_CODE(p, "    }\n");
 }
@@ -1333,8 +1335,10 @@ c_rule_convdl (OrcCompiler *p, void *user, OrcInstruction *insn)
 
   ORC_ASM_CODE(p, "    {\n");
   ORC_ASM_CODE(p,"       int tmp;\n");
-  ORC_ASM_CODE(p,"       tmp = (int)%s;\n", src);
-  ORC_ASM_CODE(p,"       if (tmp == 0x80000000 && !(%s & ORC_UINT64_C(0x8000000000000000))) tmp = 0x7fffffff;\n", src_i);
+  /* saturate |x| >= 2^31, infinities and NaN without an out-of-range (undefined)
+   * double to int conversion; same results as cvttsd2si plus the positive fix-up */
+  ORC_ASM_CODE(p,"       if ((%s & ORC_UINT64_C(0x7fffffffffffffff)) >= ORC_UINT64_C(0x41e0000000000000)) tmp = (%s & ORC_UINT64_C(0x8000000000000000)) ? (-1-0x7fffffff) : 0x7fffffff;\n", src_i, src_i);
+  ORC_ASM_CODE(p,"       else tmp = (int)%s;\n", src);
   ORC_ASM_CODE(p,"       %s = tmp;\n", dest);
   ORC_ASM_CODE(p, "    }\n");
 }
